@@ -155,12 +155,13 @@ _p("C05", modules=["framing", "framing_unbounded", "main_run"], level="other",
    assumptions=UNBOUNDED_FRAMING_ASSUMPTIONS, trusted_base=["list.sort (stable, total order by key)"], bounded=BOUNDED_FRAMING, not_under_contract=[])
 
 
-_p("C09", modules=["keylog", "main_run", "demux", "container"], level="other",
+_p("C09", modules=["keylog", "keylog_unbounded", "main_run", "demux", "container"], level="other",
    technique="contract-based deductive verification: regular-language inclusion (z3 re theory) for the key-log pattern, VCs for the parsers and run()'s DSB/-s branches",
    level_text="Proved: every line of the NSS key-log grammar (nine labels, upper- or lower-case hex) is accepted by the REAL pattern and yields exactly its three fields "
               "(language inclusion oracle <= pattern, decided by z3); any other line is rejected or parsed without exception; get_keys_from_string returns the keys of "
-              "the key lines in order for LF and CRLF files with comment, blank and foreign lines (bounded to 3 lines); a connection selects exactly the lines whose "
-              "client random spells its own, case-insensitively, in order (bounded to 2 lines); -s has no default and without it no file is read; a DSB's text goes "
+              "the key lines in order for texts of ANY number of lines (loop contract over a filtered spec list; str.replace/split assumed) and, cross-checked with real string "
+              "operations, for LF and CRLF files with comment, blank and foreign lines (bounded to 3 lines); a connection selects exactly the lines whose "
+              "client random spells its own, case-insensitively, in key-log order, for key logs of ANY length (loop contract); -s has no default and without it no file is read; a DSB's text goes "
               "to the same parser, extends the run's key list and never reaches the packet parser.",
    level_note="level 'other': byte identity of two output FILES (the property's wording) is a relational statement over the whole pipeline and is not derived; what is proved is "
               "that both sources produce the same key list and that consumers depend only on (label, client random bytes, value); Python's str.split/replace and re.match are assumed "
@@ -170,7 +171,7 @@ _p("C09", modules=["keylog", "main_run", "demux", "container"], level="other",
                "on paper; reader-level DSB handling (where in the file the block sits) is not covered.",
    assumptions=["str.split / str.replace / str.lower / bytes.fromhex behave as in CPython on regular-language-typed strings"],
    trusted_base=["re (pattern semantics translated to z3 RegLan)"],
-   bounded=[{"function": "keylog_reader.get_keys_from_string / Session.find_session_secrets", "bound": "<= 3 lines of key-log text, <= 2 key lines per selection", "counted_as": "bounded"}],
+   bounded=[{"function": "keylog_reader.get_keys_from_string with CPython's real str.replace / str.split (keylog.file_text)", "bound": "<= 3 lines of key-log text", "counted_as": "bounded cross-check; the loop itself is discharged without bound by keylog.unbounded.*"}],
    not_under_contract=["dpkt_dsb.Reader / DecryptionSecretBlock.unpack (DSB position and byte order)", "QuicSession.set_tls_decryptors' own key-log loop (same comparison through bytes.fromhex)"])
 
 _p("C18", modules=["main_run", "demux", "keylog"], level="other",
@@ -186,7 +187,7 @@ _p("C18", modules=["main_run", "demux", "keylog"], level="other",
    assumptions=["scapy and dpkt serialise deterministically"], trusted_base=["dpkt.pcapng.Writer", "scapy serialiser"],
    not_under_contract=["set_logger (log output is not part of the export)"])
 
-_p("C04", modules=["demux", "ports", "keylog", "framing"], level="other",
+_p("C04", modules=["demux", "ports", "keylog", "keylog_unbounded", "framing"], level="other",
    technique="contract-based deductive verification (routing contracts, exact-match contract) + syntactic frame obligations",
    level_text="Proved: matches_session / matches_session_dgram hold iff the packet's 4-tuple equals the session's in one of the two directions (IPv4 and IPv6); main.handle_packet "
               "hands a packet to the first matching session only and creates a session only if none matches; main.handle_quic_packet hands a datagram to exactly one session - "
